@@ -1037,3 +1037,245 @@ Proof.
                 (s_fork_fail sp) (s_exec_err sp) wo) as [[[[[eno t2] c] wrote] reaped] wo2].
     rewrite O'. simpl in *. exact R.
 Qed.
+
+(* ------------------------------------------------------------------ *)
+(* H. uv_spawn: from the stdio containers to the child's table           *)
+(* ------------------------------------------------------------------ *)
+Fixpoint npipes (cs : list stdio) : nat :=
+  match cs with
+  | [] => 0
+  | SPipe :: r => S (npipes r)
+  | _ :: r => npipes r
+  end.
+
+Lemma ext_exec_entry sc t t' d : ext sc t t' -> exec_entry (get t' d) = exec_entry (get t d).
+Proof.
+  intros H. destruct (H d) as [E|(_ & N & f & E)]; rewrite E; [reflexivity|].
+  rewrite N. reflexivity.
+Qed.
+
+Lemma ext_none sc t t' d : ext sc t t' -> get t' d = None -> get t d = None.
+Proof. intros H N. destruct (H d) as [E|(_ & N' & _)]; congruence. Qed.
+
+Definition no_bad (cs : list stdio) : Prop := forall c, In c cs -> c <> SBad.
+
+Lemma init_stdio_spec : forall cs t fresh nsp,
+  no_bad cs ->
+  exists t1 ps,
+    init_stdio cs t fresh nsp None = (t1, ps, fresh + 2 * npipes cs, None) /\
+    length ps = length cs /\ ext 0 t t1 /\
+    forall i,
+      match nth_error cs i with
+      | Some SIgnore => nth_error ps i = Some (None, None)
+      | Some (SFd fd) => nth_error ps i = Some (None, Some fd)
+      | Some SPipe =>
+          exists a b, nth_error ps i = Some (Some a, Some b) /\
+            get t1 a = Some (mkE (fresh + 2 * npipes (firstn i cs)) true) /\
+            get t1 b = Some (mkE (S (fresh + 2 * npipes (firstn i cs))) true) /\
+            get t a = None /\ get t b = None
+      | Some SBad => False
+      | None => True
+      end.
+Proof.
+  induction cs as [|c r IH]; intros t fresh nsp Hb.
+  - exists t, []. simpl. rewrite Nat.add_0_r. split; auto. split; auto.
+    split; [apply ext_refl|]. intros [|i]; exact I.
+  - assert (Hr : no_bad r) by (intros x Hx; apply Hb; right; auto).
+    destruct c.
+    + destruct (IH t fresh nsp Hr) as (t1 & ps & E & L & X & HS).
+      exists t1, ((None, None) :: ps). cbn [init_stdio]. rewrite E.
+      split; [reflexivity|]. split; [simpl; congruence|]. split; auto.
+      intros [|i]; [reflexivity|]. exact (HS i).
+    + destruct (alloc t 0 fresh true) as [ta a] eqn:Aa.
+      destruct (alloc ta 0 (S fresh) true) as [tb b] eqn:Ab.
+      destruct (IH tb (S (S fresh)) (S nsp) Hr) as (t1 & ps & E & L & X & HS).
+      pose proof (ext_alloc 0 _ _ _ _ Aa) as Xa. pose proof (ext_alloc 0 _ _ _ _ Ab) as Xb.
+      pose proof (alloc_spec _ _ _ _ _ _ Aa) as (_ & Na & Ga & Da & _).
+      pose proof (alloc_spec _ _ _ _ _ _ Ab) as (_ & Nb & Gb & Db & _).
+      assert (Hab : a <> b) by (intros ->; congruence).
+      exists t1, ((Some a, Some b) :: ps). cbn [init_stdio]. rewrite Aa, Ab, E.
+      split; [f_equal; f_equal; simpl; lia|]. split; [simpl; congruence|].
+      split; [eapply ext_trans; [exact Xa|eapply ext_trans; eauto]|].
+      intros [|i].
+      * cbn [nth_error firstn npipes]. exists a, b. split; [reflexivity|].
+        rewrite Nat.mul_0_r, Nat.add_0_r.
+        split; [eapply ext_some; [exact X|]; rewrite Db by auto; exact Ga|].
+        split; [eapply ext_some; [exact X|exact Gb]|].
+        split; [exact Na|]. eapply ext_none; [exact Xa|exact Nb].
+      * specialize (HS i). cbn [nth_error]. destruct (nth_error r i) as [[| |fd|]|]; auto.
+        destruct HS as (a' & b' & S1 & S2 & S3 & S4 & S5).
+        exists a', b'. split; [exact S1|].
+        cbn [firstn npipes].
+        replace (fresh + 2 * S (npipes (firstn i r)))
+          with (S (S fresh) + 2 * npipes (firstn i r)) by lia.
+        split; [exact S2|]. split; [exact S3|].
+        split; [apply (ext_none 0 t tb a' (ext_trans _ _ _ _ Xa Xb) S4)|
+               apply (ext_none 0 t tb b' (ext_trans _ _ _ _ Xa Xb) S5)].
+    + destruct (IH t fresh nsp Hr) as (t1 & ps & E & L & X & HS).
+      exists t1, ((None, Some fd) :: ps). cbn [init_stdio]. rewrite E.
+      split; [reflexivity|]. split; [simpl; congruence|]. split; auto.
+      intros [|i]; [reflexivity|]. exact (HS i).
+    + exfalso. apply (Hb SBad); [left; auto|auto].
+Qed.
+
+Lemma pad3_nth : forall n l i, nth i (pad3 n l) None = nth i l None.
+Proof.
+  induction n as [|n IH]; intros l i; [reflexivity|].
+  destruct l as [|x l], i as [|i]; simpl; auto.
+  rewrite IH. destruct i; reflexivity.
+Qed.
+
+Lemma pad3_length : forall n l, length (pad3 n l) = Nat.max n (length l).
+Proof.
+  induction n as [|n IH]; intros l; [reflexivity|].
+  destruct l as [|x l]; simpl; rewrite IH; simpl; lia.
+Qed.
+
+(* what the containers ask for in slot i *)
+Definition container_slot (sp : spec) (i : nat) : option entry :=
+  match nth i (s_stdio sp) SIgnore with
+  | SFd fd => option_map nocx (get (s_tbl sp) fd)
+  | SPipe => Some (mkE (S (s_fresh sp + 2 * npipes (firstn i (s_stdio sp)))) false)
+  | _ => if i <? 3 then Some (mkE devnull false) else exec_entry (get (s_tbl sp) i)
+  end.
+
+Definition inherited_open (sp : spec) : Prop :=
+  forall i fd, nth_error (s_stdio sp) i = Some (SFd fd) -> get (s_tbl sp) fd <> None.
+
+Theorem spawn_fds sp wo :
+  no_bad (s_stdio sp) -> inherited_open sp ->
+  s_sp_fail sp = None -> s_pipe_fail sp = false -> s_fork_fail sp = false ->
+  s_exec_err sp = None ->
+  let r := fst (uv_spawn sp wo) in
+  let sc := Nat.max 3 (length (s_stdio sp)) in
+  r_ret r = 0%Z /\ r_active r = true /\
+  exists t', r_child r = Some (CExec t') /\
+    (forall i, i < sc -> get t' i = container_slot sp i) /\
+    (forall d, sc <= d -> get t' d = exec_entry (get (s_tbl sp) d)).
+Proof.
+  intros Hb Ho Hsp Hpf Hff Hee. cbv zeta. unfold uv_spawn. rewrite Hsp.
+  destruct (init_stdio_spec (s_stdio sp) (s_tbl sp) (s_fresh sp) 0 Hb) as (t1 & ps & E & L & X & HS).
+  rewrite E. set (us := pad3 3 (map snd ps)).
+  unfold spawn_child. rewrite Hpf, Hff, Hee.
+  destruct (alloc t1 0 (s_fresh sp + 2 * npipes (s_stdio sp)) true) as [ta rfd] eqn:Aa.
+  destruct (alloc ta 0 (S (s_fresh sp + 2 * npipes (s_stdio sp))) true) as [t2 wfd] eqn:Ab.
+  assert (X2 : ext 0 (s_tbl sp) t2).
+  { eapply ext_trans; [exact X|]. eapply ext_trans; eapply ext_alloc; eauto. }
+  assert (X12 : ext 0 t1 t2) by (eapply ext_trans; eapply ext_alloc; eauto).
+  assert (Lus : length us = Nat.max 3 (length (s_stdio sp))).
+  { unfold us. rewrite pad3_length, map_length, L. reflexivity. }
+  assert (Hus : forall i, nth i us None = snd (nth i ps (None, None))).
+  { intros i. unfold us. rewrite pad3_nth. apply (map_nth snd ps (None, None)). }
+  (* what pass 2 sees in slot i, by container *)
+  assert (Hslot : forall i,
+     match nth i (s_stdio sp) SIgnore with
+     | SFd fd => nth i us None = Some fd /\ get (s_tbl sp) fd <> None
+     | SPipe => exists b, nth i us None = Some b /\
+                  get t2 b = Some (mkE (S (s_fresh sp + 2 * npipes (firstn i (s_stdio sp)))) true)
+     | _ => nth i us None = None
+     end).
+  { intros i. rewrite Hus. specialize (HS i).
+    destruct (nth_error (s_stdio sp) i) as [c|] eqn:En.
+    - rewrite (nth_error_nth _ _ SIgnore En).
+      destruct c as [| |fd|].
+      + rewrite (nth_error_nth _ _ (None, None) HS). reflexivity.
+      + destruct HS as (a & b & S1 & S2 & S3 & _).
+        rewrite (nth_error_nth _ _ (None, None) S1). exists b. split; [reflexivity|].
+        eapply ext_some; eauto.
+      + rewrite (nth_error_nth _ _ (None, None) HS). split; [reflexivity|]. eapply Ho; eauto.
+      + destruct HS.
+    - apply nth_error_None in En.
+      rewrite (nth_overflow _ SIgnore En). rewrite nth_overflow by lia. reflexivity. }
+  assert (Hopen : sources_open t2 us).
+  { intros k u Hk. assert (Hn : nth k us None = Some u) by (erewrite nth_error_nth; eauto).
+    specialize (Hslot k). destruct (nth k (s_stdio sp) SIgnore) as [| |fd|].
+    - congruence.
+    - destruct Hslot as (b & B1 & B2). assert (u = b) by congruence. subst. congruence.
+    - destruct Hslot as (B1 & B2). assert (u = fd) by congruence. subst.
+      destruct (get (s_tbl sp) fd) as [e|] eqn:Eg; [|congruence].
+      rewrite (ext_some 0 _ _ _ _ X2 Eg). discriminate.
+    - congruence. }
+  destruct (child_fds t2 us Hopen) as (t' & Ec & A & B).
+  rewrite Ec.
+  destruct (open_streams (s_stdio sp) ps 0 (close (close t2 wfd) rfd)) as [t3 streams].
+  cbn [fst r_ret r_active r_child]. split; [reflexivity|]. split; [reflexivity|].
+  exists t'. split; [reflexivity|]. split.
+  - intros i Hi. rewrite (A i) by lia. unfold child_slot, container_slot.
+    specialize (Hslot i). destruct (nth i (s_stdio sp) SIgnore) as [| |fd|].
+    + rewrite Hslot. destruct (i <? 3); [reflexivity|]. apply (ext_exec_entry 0). auto.
+    + destruct Hslot as (b & B1 & B2). rewrite B1, B2. reflexivity.
+    + destruct Hslot as (B1 & B2). rewrite B1.
+      destruct (get (s_tbl sp) fd) as [e|] eqn:Eg; [|congruence].
+      rewrite (ext_some 0 _ _ _ _ X2 Eg). reflexivity.
+    + rewrite Hslot. destruct (i <? 3); [reflexivity|]. apply (ext_exec_entry 0). auto.
+  - intros d Hd. rewrite (B d) by lia. apply (ext_exec_entry 0). auto.
+Qed.
+
+(* the parent's side of the UV_CREATE_PIPE slots *)
+Lemma open_streams_spec : forall cs ps k t t' l,
+  open_streams cs ps k t = (t', l) ->
+  (forall d, (forall j a b, nth_error cs j = Some SPipe ->
+                            nth_error ps j = Some (a, Some b) -> d <> b) ->
+             get t' d = get t d) /\
+  (forall i a b, nth_error cs i = Some SPipe -> nth_error ps i = Some (Some a, b) ->
+                 In (k + i, a) l).
+Proof.
+  induction cs as [|c r IH]; intros ps k t t' l H.
+  - simpl in H. inversion H; subst. split; auto. intros [|i] a b Hc; discriminate.
+  - destruct ps as [|[a0 b0] pr].
+    + simpl in H. destruct c; inversion H; subst; (split; [auto|intros [|i] a b _ Hp; discriminate]).
+    + assert (Gen : forall t0 l0, open_streams r pr (S k) t0 = (t', l0) ->
+               (forall d, (forall j a b, nth_error (c :: r) j = Some SPipe ->
+                      nth_error ((a0, b0) :: pr) j = Some (a, Some b) -> d <> b) ->
+                  get t' d = get t0 d) /\
+               (forall i a b, nth_error r i = Some SPipe -> nth_error pr i = Some (Some a, b) ->
+                  In (S k + i, a) l0)).
+      { intros t0 l0 H0. destruct (IH _ _ _ _ _ H0) as (A & B). split; auto.
+        intros d Hd. apply A. intros j a b Hc Hp. apply (Hd (S j) a b); auto. }
+      cbn [open_streams] in H.
+      destruct c; try (destruct (Gen _ _ H) as (A & B); split; [exact A|];
+                       intros [|i] a b Hc Hp; simpl in Hc, Hp; [discriminate|];
+                       replace (k + S i) with (S k + i) by lia; eauto).
+      destruct a0 as [pa|].
+      * destruct (open_streams r pr (S k) (close_opt t b0)) as [t1 l1] eqn:E1.
+        inversion H; subst. destruct (Gen _ _ E1) as (A & B). split.
+        -- intros d Hd. rewrite (A d Hd). destruct b0 as [b0|]; [|reflexivity].
+           simpl. rewrite get_close. destruct (Nat.eqb_spec b0 d) as [<-|]; [|reflexivity].
+           exfalso. apply (Hd 0 (Some pa) b0); reflexivity.
+        -- intros [|i] a b Hc Hp; simpl in Hc, Hp.
+           ++ inversion Hp; subst. rewrite Nat.add_0_r. left. reflexivity.
+           ++ right. replace (k + S i) with (S k + i) by lia. eauto.
+      * destruct (Gen _ _ H) as (A & B). split; [exact A|].
+        intros [|i] a b Hc Hp; simpl in Hc, Hp; [discriminate|].
+        replace (k + S i) with (S k + i) by lia. eauto.
+Qed.
+
+Theorem spawn_streams sp wo i :
+  no_bad (s_stdio sp) ->
+  s_sp_fail sp = None -> s_pipe_fail sp = false -> s_fork_fail sp = false ->
+  nth_error (s_stdio sp) i = Some SPipe ->
+  let r := fst (uv_spawn sp wo) in
+  exists a, In (i, a) (r_streams r) /\
+    get (r_ptbl r) a = Some (mkE (s_fresh sp + 2 * npipes (firstn i (s_stdio sp))) true).
+Proof.
+  intros Hb Hsp Hpf Hff Hi. cbv zeta. unfold uv_spawn. rewrite Hsp.
+  destruct (init_stdio_spec (s_stdio sp) (s_tbl sp) (s_fresh sp) 0 Hb) as (t1 & ps & E & L & X & HS).
+  rewrite E.
+  pose proof (HS i) as Si. rewrite Hi in Si. destruct Si as (a & b & S1 & S2 & S3 & _).
+  (* every child end differs from this parent end: the files differ *)
+  assert (Hneq : forall j a' b', nth_error (s_stdio sp) j = Some SPipe ->
+                   nth_error ps j = Some (a', Some b') -> a <> b').
+  { intros j a' b' Hj Hp. pose proof (HS j) as Sj. rewrite Hj in Sj.
+    destruct Sj as (a2 & b2 & T1 & _ & T3 & _). rewrite Hp in T1. inversion T1; subst.
+    intros <-. rewrite S2 in T3. inversion T3. lia. }
+  pose proof (spawn_child_restores t1 (pad3 3 (map snd ps)) (s_fresh sp + 2 * npipes (s_stdio sp))
+                (s_pipe_fail sp) (s_fork_fail sp) (s_exec_err sp) wo a) as R.
+  destruct (spawn_child t1 (pad3 3 (map snd ps)) (s_fresh sp + 2 * npipes (s_stdio sp))
+              (s_pipe_fail sp) (s_fork_fail sp) (s_exec_err sp) wo)
+    as [[[[[eno t2] c] wrote] reaped] wo2].
+  destruct (open_streams (s_stdio sp) ps 0 t2) as [t3 streams] eqn:Eo.
+  destruct (open_streams_spec _ _ _ _ _ _ Eo) as (A & B).
+  cbn [fst r_streams r_ptbl]. exists a. split.
+  - apply (B i a (Some b)); auto.
+  - rewrite (A a Hneq). simpl in R. rewrite R. exact S2.
+Qed.
